@@ -128,6 +128,7 @@ class Sim:
         self.saves: dict = {}  # fmt -> acknowledged save record
         self.io = None  # persist.IO, attached by runner when needed
         self.restarts = 0
+        self.recent: list = []
         self.aborted = None
         self.count("cfg_" + ("seg" if self.with_seg else "noseg"))
         self.count("cfg_%dd" % (world["ndim"] - 1))
@@ -300,6 +301,7 @@ class Sim:
             if g.nodes[v][tk] - g.nodes[u][tk] > 1:
                 cl["skip_src"].append(u)
                 cl["skip_dst"].append(v)
+        cl["recent"] = [n for n in self.recent if n in g]
         return cl
 
     def pick_node(self, sel, classes=None):
@@ -316,6 +318,8 @@ class Sim:
         c = classes.get(cls) or classes["any"]
         if not c:
             return None
+        if cls == "recent" and classes.get(cls):
+            self.count("sel_recent_node")
         return c[k % len(c)]
 
     def pick_edge(self, sel):
@@ -331,6 +335,11 @@ class Sim:
             c = [e for e in es if g.nodes[e[1]][tk] - g.nodes[e[0]][tk] > 1]
         elif cls == "normal":
             c = [e for e in es if g.out_degree(e[0]) == 1]
+        elif cls == "recent":
+            r = set(self.recent)
+            c = [e for e in es if e[0] in r or e[1] in r]
+            if c:
+                self.count("sel_recent_edge")
         else:
             c = es
         c = c or es
@@ -358,6 +367,21 @@ class Sim:
         """Structural edits (and undo/redo) are only scheduled while track ids are managed
         (by the client's account: it has not switched them off)."""
         return self.tracks.features.tracklet_key in self.model_active
+
+    def _note_recent(self, a, b):
+        """Nodes the operation touched (created, changed, or an endpoint of a created /
+        removed / changed edge): the target set of the "recent" selector class."""
+        if a is None or a is b:
+            return
+        na, nb = a["nodes"], b["nodes"]
+        ch = {n for n in nb if na.get(n) != nb[n]}
+        ea, eb = a["edges"], b["edges"]
+        for e in set(ea) | set(eb):
+            if ea.get(e) != eb.get(e):
+                ch.update(e)
+        ch = sorted(n for n in ch if n in nb)
+        if ch:
+            self.recent = ch[:8]
 
     # ---------------------------------------------------------------- step
     def step(self, op: dict):
@@ -434,6 +458,7 @@ class Sim:
             return out
         tr = self.tracks  # may have been replaced by a restart
         post = observe.canon(tr)
+        self._note_recent(pre["canon"], post)
         self.last_canon = post
         if self.violations:
             # op-level oracle already failed; state oracles would only cascade
@@ -958,6 +983,15 @@ class Sim:
                     attrs[a] = v
             elif inv != "partial_pos":
                 attrs[pk] = pos
+        lk = tr.features.lineage_key
+        if op.get("lineage") and lk is not None and lk in self.model_active and not inv:
+            src = [n for n in nodes if g.nodes[n].get(trk) == tid] if op["lineage"] == "of_track" else nodes
+            if src:
+                attrs[lk] = g.nodes[src[op.get("t", 0) % len(src)]].get(lk)
+                if attrs[lk] is None:
+                    del attrs[lk]
+                else:
+                    self.count("an_lineage_supplied_" + op["lineage"])
         if op.get("bogus_attrs") and self.with_seg and pixels is not None:
             # a client may pass managed measurements along with the pixels; the stored
             # values must still be those of the mask (C08)
